@@ -240,6 +240,23 @@ CLAIMS["C19"] = (
     "frequenz.channels ReceiverError hierarchy.",
     "DESIGN.md §2 C19")
 
+CLAIMS["C16"] = (
+    "three-valued partial evaluation of the validity predicates on their CFGs; conjunction / "
+    "guard-shape / sibling rules; term rules on the back-off",
+    "Decides on the parsed source: for each disqualifying fact (stale, invalid component or relay "
+    "state, critical error, NaN capacity; stale / invalid state / critical error for the inverter) "
+    "the predicate testing it returns False on every path on which the fact holds (everything else "
+    "unknown); each stream's health flag is the conjunction of all its predicates and WORKING/"
+    "UNCERTAIN is returned only with both flags; message handlers record the timestamp and reset "
+    "their own timer, each timer branch judges and clears its own stream, and every state-"
+    "changing branch reaches the change detection; notifications are sent only for detected "
+    "changes; the back-off is min on the first failure, unchanged while blocked, min(2*last, max) "
+    "when expired, reset on every success, applied only when not NOT_WORKING; uncertain components "
+    "only as fallback. Clock/timer races are not decided.",
+    "Trusted: the frozen atom table binding facts to conditions and the frozen operational-state "
+    "sets (sa/props/c16.py); logging does not raise.",
+    "DESIGN.md §2 C16")
+
 PENDING_REASON = ("no static check is registered for this property yet in this revision of the "
                   "machinery (planned rules are in DESIGN.md §2); nothing is claimed for it")
 
